@@ -611,6 +611,11 @@ fn csv_is_eintr(e: &csv::Error) -> bool {
 }
 
 fn read_bed(w: &W, data: &Rc<Vec<u8>>, io: IoCfg) -> (Vec<Item<bed::Record>>, bool, Vec<usize>) {
+    read_bed_opts(w, data, io, true)
+}
+
+/// `may_recreate`: whether the run may ask for a new records() iterator in mid-stream
+fn read_bed_opts(w: &W, data: &Rc<Vec<u8>>, io: IoCfg, may_recreate: bool) -> (Vec<Item<bed::Record>>, bool, Vec<usize>) {
     let src = SimRead::new(w, data.clone(), io, "src");
     let cuts = src.cuts.clone();
     w.set_budget(8 * data.len() as u64 + 1000);
@@ -620,7 +625,7 @@ fn read_bed(w: &W, data: &Rc<Vec<u8>>, io: IoCfg) -> (Vec<Item<bed::Record>>, bo
     let mut ended = false;
     // 1 reader in 6 asks for a new records() iterator after every `again` items: the new iterator
     // must carry on where the previous one stopped
-    let again = if w.chance(1, 6) { 1 + w.draw(3) as usize } else { 0 };
+    let again = if may_recreate && w.chance(1, 6) { 1 + w.draw(3) as usize } else { 0 };
     if again > 0 {
         w.probe("records_iterator_recreated_mid_stream");
     }
@@ -651,6 +656,10 @@ fn read_bed(w: &W, data: &Rc<Vec<u8>>, io: IoCfg) -> (Vec<Item<bed::Record>>, bo
 }
 
 fn read_gff(w: &W, data: &Rc<Vec<u8>>, io: IoCfg, d: Dialect) -> (Vec<Item<gff::Record>>, bool, Vec<usize>) {
+    read_gff_opts(w, data, io, d, true)
+}
+
+fn read_gff_opts(w: &W, data: &Rc<Vec<u8>>, io: IoCfg, d: Dialect, may_recreate: bool) -> (Vec<Item<gff::Record>>, bool, Vec<usize>) {
     let src = SimRead::new(w, data.clone(), io, "src");
     let cuts = src.cuts.clone();
     w.set_budget(8 * data.len() as u64 + 1000);
@@ -660,7 +669,7 @@ fn read_gff(w: &W, data: &Rc<Vec<u8>>, io: IoCfg, d: Dialect) -> (Vec<Item<gff::
     let mut ended = false;
     // 1 reader in 6 asks for a new records() iterator after every `again` items: the new iterator
     // must carry on where the previous one stopped
-    let again = if w.chance(1, 6) { 1 + w.draw(3) as usize } else { 0 };
+    let again = if may_recreate && w.chance(1, 6) { 1 + w.draw(3) as usize } else { 0 };
     if again > 0 {
         w.probe("records_iterator_recreated_mid_stream");
     }
@@ -1433,8 +1442,9 @@ fn damage(w: &W, fmt: Fmt) -> Verdict {
 
 /// The same stored file through two fresh readers: one pulled with next() only (the baseline), one
 /// driven through count(), last(), nth(), skip() or step_by(). The Iterator contract ties each of
-/// them to the next() sequence, so the items must agree: Ok items equal, Err items at the same
-/// places. No EINTR here (csv ends after surfacing it); fragmentation is drawn.
+/// them to the next() sequence of *one* iterator (a reader may legally end an iterator after its
+/// first error and carry on with the next one), so the items must agree: Ok items equal, Err items
+/// at the same places. No EINTR here (csv ends after surfacing it); fragmentation is drawn.
 fn methods_pass(w: &W, fmt: Fmt, data: &Rc<Vec<u8>>) -> Verdict {
     w.probe("damaged_file_through_iterator_methods");
     fn same<T: PartialEq, E>(a: Option<&Item<T>>, b: Option<&Result<T, E>>) -> bool {
@@ -1506,7 +1516,7 @@ fn methods_pass(w: &W, fmt: Fmt, data: &Rc<Vec<u8>>) -> Verdict {
     let io = IoCfg::draw(w, false);
     let res = match fmt {
         Fmt::Bed => {
-            let (base, ended, _) = read_bed(w, data, IoCfg::CLEAN);
+            let (base, ended, _) = read_bed_opts(w, data, IoCfg::CLEAN, false);
             if !ended {
                 return Ok(());
             }
@@ -1518,7 +1528,7 @@ fn methods_pass(w: &W, fmt: Fmt, data: &Rc<Vec<u8>>) -> Verdict {
             r
         }
         Fmt::Gff(d) => {
-            let (base, ended, _) = read_gff(w, data, IoCfg::CLEAN, d);
+            let (base, ended, _) = read_gff_opts(w, data, IoCfg::CLEAN, d, false);
             if !ended {
                 return Ok(());
             }
